@@ -487,6 +487,23 @@ func registerMisc() {
 	for _, n := range []string{"fmt.Fprintf", "fmt.Fprint", "fmt.Fprintln", "fmt.Printf", "fmt.Println", "fmt.Print"} {
 		n := n
 		I[n] = func(in *Interp, th *Thread, fn *ssa.Function, args []Value, d func(Value)) (Value, bool) {
+			if n == "fmt.Fprint" || n == "fmt.Fprintln" {
+				w := args[0].(IfaceV)
+				if w.T == nil {
+					panic(unsupported{n + " to a nil writer"})
+				}
+				st := in.sprintSym(in.sliceValues(args[1]), n == "fmt.Fprintln")
+				ms := in.prog.MethodSets.MethodSet(w.T)
+				for i := 0; i < ms.Len(); i++ {
+					if ms.At(i).Obj().Name() == "Write" {
+						mf := in.prog.MethodValue(ms.At(i))
+						bs := in.strToBytes(st, types.Typ[types.Uint8])
+						in.callThen(th, &FuncV{Fn: mf}, []Value{w.V, bs}, func(r Value) { d(r) })
+						return asyncResult, true
+					}
+				}
+				panic(unsupported{n + ": writer without Write"})
+			}
 			if n == "fmt.Fprintf" {
 				// write formatted bytes through the writer
 				f, ok := strArg(args[1])
